@@ -694,6 +694,7 @@ def rule_dba_c(ctx, m):
             ploops = [l for b2, i2, l in _all_loops(loop.body) if l.k == 'for' and l.hi == ('var', 'path_length')]
             okp = bool(ploops)
             why = []
+            roles = []          # (index array of the sums, series array read, index array of the reads, line)
             for pl in ploops:
                 evs = [(ev, lps) for ev, lps in deep_events(pl.body, Env({pl.var: ('var', pl.var)})) if ev[0] == 'store' and ev[2][0] == 'idx']
                 cnts = [(ev, lps) for ev, lps in evs if ev[3] == ('bin', '+', ev[2], ('num', 1))]
@@ -715,8 +716,32 @@ def rule_dba_c(ctx, m):
                     ok1 = t_item == item and s_item is not None and s_item[0] == 'idx' and item[0] == 'idx' and s_item[1] != item[1] and s_item[2] == item[2] \
                         and sev[2][1] != cev[2][1]
                 okp = okp and ok1
+                if ok1:
+                    roles.append((item[1], rd[1], s_item[1], pl.line))
             ctx.check(okp, 'R-PATH', f.file, fname, 'sum/count pairing [%s]' % tag,
                       'for every path element (ci, mi): assoctab[ci*ndim+d] += sequence[mi*ndim+d] for all d and assoctab_cnt[ci] += 1 exactly once %s' % '; '.join(why), loop.line)
+            # which index array belongs to which series: the path routine fills (i1, i2) for the (first, second) series of the cost-matrix call;
+            # the sums are indexed by the average's positions, the values are read from the other series at ITS positions
+            avg_v = ('var', f.params[3][0])
+            calls = [x for s in walk_stmts(loop.body) for e in stmt_exprs(s) for x in walk_expr(e) if x[0] == 'call']
+            wcalls = [x for x in calls if (dotted(x[1]) or '').startswith('dtw_warping_paths') and len(x[2]) >= 5]
+            pcalls = [x for x in calls if (dotted(x[1]) or '').startswith('dtw_best_path') and len(x[2]) >= 5]
+            if len(wcalls) == 1 and len(pcalls) == 1 and roles:
+                wc, pc = wcalls[0], pcalls[0]
+                s1, l1, s2, l2 = wc[2][1:5]
+                if s1 == avg_v or s2 == avg_v:
+                    a_idx, o_idx, other = (pc[2][1], pc[2][2], s2) if s1 == avg_v else (pc[2][2], pc[2][1], s1)
+                    okr = tuple(pc[2][3:5]) == (l1, l2) and all(ia == a_idx and rs == other and ib == o_idx for ia, rs, ib, _ln in roles)
+                    ctx.check(okr, 'R-PATH', f.file, fname, 'path index roles [%s]' % tag,
+                              'the cost matrix is computed for (%s, %s) and the path routine fills (%s, %s) for them in that order: the sums must be indexed through %s (positions in the '
+                              'average) and read %s through %s; found sums indexed through %s reading %s through %s -- with swapped roles positions of one series index the other '
+                              '(wrong average; out-of-bounds access when the lengths differ)'
+                              % (fmt(s1), fmt(s2), fmt(pc[2][1]), fmt(pc[2][2]), fmt(a_idx), fmt(other), fmt(o_idx),
+                                 sorted({fmt(r_[0]) for r_ in roles}), sorted({fmt(r_[1]) for r_ in roles}), sorted({fmt(r_[2]) for r_ in roles})), roles[0][3])
+                else:
+                    ctx.undecided('R-PATH', '%s path index roles [%s]' % (fname, tag), 'the average is not an operand of the cost-matrix call')
+            else:
+                ctx.undecided('R-PATH', '%s path index roles [%s]' % (fname, tag), '%d cost-matrix calls, %d path calls' % (len(wcalls), len(pcalls)))
             if fname == 'dtw_dba_matrix':
                 incs = paths_increments(loop.body, 'r_idx')
                 top = [s for s in loop.body if s.k == 'assign' and s.target == ('var', 'r_idx')]
@@ -746,6 +771,174 @@ def rule_dba_c(ctx, m):
         # initialisation of sums and counts to 0
         init = [s for s in walk_stmts(f.body) if s.k == 'assign' and s.target[0] == 'idx' and s.target[1] in (('var', 'assoctab'), ('var', 'assoctab_cnt')) and s.value == ('num', 0)]
         ctx.check(len(init) >= 2, 'R-PATH', f.file, fname, 'accumulator reset', 'sums and counts must be zeroed before accumulation', f.line)
+
+
+def _literal(c):
+    """(atom, polarity) of a condition: `not x` and `a != b` are the negations of x and `a == b` (exact, also for NaN)."""
+    pol = True
+    while True:
+        if c[0] == 'un' and c[1] == 'not':
+            c, pol = c[2], not pol
+        elif c[0] == 'bin' and c[1] == '!=':
+            c, pol = ('bin', '==', c[2], c[3]), not pol
+        else:
+            return c, pol
+
+
+def _truth_on_path(arg, path):
+    """Truth value of a flag argument on a path (tuple of branch conditions): constants, or a literal the path has decided; None otherwise."""
+    from .kern import _conj
+    if arg in (('num', 1), ('bool', True)):
+        return True
+    if arg in (('num', 0), ('bool', False)):
+        return False
+    a, pol = _literal(arg)
+    for c in _conj(path):
+        b, pb = _literal(c)
+        if a == b:
+            return pol == pb
+    return None
+
+
+def rule_backtrack_repr(ctx, m):
+    """The C backtracking routines compare cells of the cost matrix with the penalty of the internal (squared) domain and skip cells marked negative by the
+    psi-relaxation: every cost-matrix call that can be the most recent one on the same buffer when a `dtw_best_path*` call is reached must have been asked to
+    keep the internal representation and to mark the relaxed border (its parameters of those names, whatever their position).  Decided on the statement
+    tree: a producer counts when its branch conditions do not contradict those of the path routine; a flag is evaluated under both sets of conditions."""
+    allf = m.all_cfuncs()
+    n = 0
+    for fname, f in sorted(allf.items()):
+        if not any(c[0].startswith('dtw_best_path') for c in f.calls):
+            continue
+        mutated = assigned_vars(f.body)
+        producers = []          # (path, callee, args, parameter names) in program order; path = ((id of if, arm, condition), ...)
+        sites = []
+
+        def calls_in(e):
+            return [x for x in reversed(list(walk_expr(e))) if x[0] == 'call' and x[2] and (dotted(x[1]) or '') in allf]
+
+        def visit(stmts, path):
+            for st in stmts:
+                if st.k == 'if':
+                    for x in calls_in(st.cond):
+                        on_call(x, path, st)
+                    visit(st.then, path + ((id(st), True, st.cond),))
+                    visit(st.els, path + ((id(st), False, ('un', 'not', st.cond)),))
+                    continue
+                for e in stmt_exprs(st):
+                    for x in calls_in(e):
+                        on_call(x, path, st)
+                for blk in sub_blocks(st):
+                    visit(blk, path)
+
+        def on_call(x, path, st):
+            nm = dotted(x[1])
+            names = [p_[0] for p_ in allf[nm].params]
+            if nm.startswith('dtw_warping_paths') and 'keep_int_repr' in names:
+                producers.append((path, nm, x[2], names))
+            elif nm.startswith('dtw_best_path'):
+                sites.append((path, nm, x[2], st, list(producers)))
+        visit(f.body, ())
+        for path, nm, args, st, prods in sites:
+            n += 1
+            inst = '%s: %s reads %s' % (fname, nm, fmt(args[0]))
+            arms = {i: a for i, a, _c in path}
+            relevant = []
+            for ppath, pn, pargs, pnames in reversed(prods):
+                if pargs[0] != args[0]:
+                    continue
+                if any(i in arms and arms[i] != a for i, a, _c in ppath):
+                    continue            # the other arm of a branch the path routine is in
+                relevant.append((ppath, pn, pargs, pnames))
+                if all(i in arms for i, _a, _c in ppath):
+                    break               # executed on every path that reaches the path routine: earlier producers are overwritten
+            if not relevant:
+                ctx.undecided('R-DOM', inst, 'no cost-matrix call on this buffer precedes the path routine')
+                continue
+            verdicts = []
+            for ppath, pn, pargs, pnames in relevant:
+                conds = tuple(c for _i, _a, c in tuple(path) + tuple(ppath))
+                for flag in ('keep_int_repr', 'psi_neg'):
+                    if flag in pnames and pnames.index(flag) < len(pargs):
+                        arg = pargs[pnames.index(flag)]
+                        free = {y[1] for y in walk_expr(arg) if y[0] == 'var'}
+                        v = _truth_on_path(arg, conds) if not (free & mutated) else (_truth_on_path(arg, ()))
+                        verdicts.append((v, flag, pn, pargs))
+            bad = [t for t in verdicts if t[0] is False]
+            if bad:
+                _v, flag, pn, pargs = bad[0]
+                ctx.violation('R-DOM', f.file, fname, 'matrix representation for %s' % nm,
+                              '%s backtracks through a matrix that %s produced with %s false on this path (call %s): the path routine compares cells with the '
+                              'squared penalty and skips cells marked negative, so it needs the internal representation with the relaxed border marked -- '
+                              'with a rooted matrix and a penalty the path is no longer the optimal one'
+                              % (nm, pn, ' and '.join(sorted({t[1] for t in bad})), fmt(('call', ('var', pn), pargs, ()))[:200]), st.line)
+            elif any(t[0] is None for t in verdicts):
+                ctx.undecided('R-DOM', inst, 'flag not decided on the path: %s' % sorted({'%s=%s' % (t[1], fmt(t[3][0])) for t in verdicts if t[0] is None}))
+            else:
+                ctx.held('R-DOM', inst)
+    ctx.count('backtracking call sites', n)
+    if n == 0:
+        raise AnalysisError('anchor vanished: no dtw_best_path* call site in the C engine')
+    return n
+
+
+def rule_path_distance_domain(ctx, m):
+    """dtw_warping_path_ndim returns the DTW distance next to the path: the cost-matrix routine is asked to keep the internal representation (the path
+    routine needs it), so the value it hands back is the accumulated cost -- squared for the squared-Euclidean inner distance, already a distance for the
+    Euclidean one.  Per inner distance: the returned value is rooted exactly when it is a squared cost."""
+    from ..symexec import Exec
+    allf = m.all_cfuncs()
+    f = allf.get('dtw_warping_path_ndim')
+    if f is None:
+        raise AnalysisError('anchor vanished: C function dtw_warping_path_ndim')
+    ex = Exec()
+    ex.run(f.body, Env())
+    n = 0
+
+    def arms(val, path):
+        if val is not None and val[0] == 'cond':
+            yield from arms(val[2], tuple(path) + (val[1],))
+            yield from arms(val[3], tuple(path) + (('un', 'not', val[1]),))
+        else:
+            yield tuple(path), val
+    rets = [(p2, v2, st) for path, val, st in ex.returns for p2, v2 in arms(val, path)]
+    for path, val, st in rets:
+        if val is None:
+            continue
+        k = 0
+        v = val
+        while v[0] == 'call' and dotted(v[1]) in ('sqrt', 'sqrtf', 'sqrtl') and len(v[2]) == 1:
+            k += 1
+            v = v[2][0]
+        callee = dotted(v[1]) if v[0] == 'call' else None
+        g = allf.get(callee or '')
+        if g is None or not callee.startswith('dtw_warping_paths'):
+            ctx.undecided('R-DOM', 'dtw_warping_path_ndim returned distance', 'the returned value %s is not the result of a cost-matrix call' % fmt(val)[:100])
+            continue
+        names = [p_[0] for p_ in g.params]
+        kir = _truth_on_path(v[2][names.index('keep_int_repr')], path) if 'keep_int_repr' in names else None
+        if kir is None:
+            ctx.undecided('R-DOM', 'dtw_warping_path_ndim returned distance', 'keep_int_repr of %s not decided' % callee)
+            continue
+        on_path = None
+        for c in path:
+            for lit in (c,):
+                a_, pol = _literal(lit)
+                if a_[0] == 'bin' and a_[1] == '==' and any(x[0] == 'attr' and x[2] == 'inner_dist' for x in walk_expr(a_)) and a_[3] == ('num', 1):
+                    on_path = pol
+        for euclid in ((True, False) if on_path is None else (on_path,)):
+            n += 1
+            squared = kir and not euclid and not callee.endswith('_euclidean')
+            if callee.endswith('_euclidean') and not euclid:
+                continue          # (calling the euclidean variant for the squared inner distance is the variant-callee rule's business)
+            want = 1 if squared else 0
+            ctx.check(k == want, 'R-DOM', f.file, 'dtw_warping_path_ndim', 'returned distance [inner_dist %s]' % ('euclidean' if euclid else 'squared euclidean'),
+                      'with the %s inner distance %s(keep_int_repr=%s) hands back %s; dtw_warping_path_ndim applies sqrt %d time(s) where %d are needed, so the reported '
+                      'distance is not the cost of the returned path' % ('euclidean' if euclid else 'squared euclidean', callee, kir,
+                                                                         'the squared accumulated cost' if squared else 'a distance', k, want), st.line)
+    if n == 0:
+        raise AnalysisError('unrecognised shape: dtw_warping_path_ndim returns no cost-matrix result')
+    return n
 
 
 def _item_of(e, dv):
